@@ -450,6 +450,22 @@ def run(prog: Program, chk: Check):
     # ---- X which definitions a back end leaves out -------------------------------------------------------------------------------------
     # The C back end omits pyrtma's own core definitions (C clients take them from RTMA.h).  That test must compare a path
     # *component*; a substring test on the path text also drops user files such as lab_core_defs.yaml - from the C output only.
+    # ---- U member names are identifiers in every generated language ---------------------------------------------------------------
+    # The padding members check_alignment inserts are emitted like any other member: two of them under one name is a duplicate
+    # member in C (does not compile), one ctypes field shadowing the other in Python (size and offsets differ from the recorded
+    # ones), one key overwriting the other in JS.  Decided by interpreting check_alignment over the families that need padding
+    # both before a member and at the end.
+    from .c11 import padded_member_names
+
+    U = chk.rule("C04-U", "after automatic padding the members of a definition have pairwise distinct names", 10,
+                 "duplicate member names make the four outputs disagree (C: compile error, Python: a member lost and sizes shifted, JS: a member lost)")
+    ca_, runs_ = padded_member_names(prog)
+    for seq_, raised_, names_ in runs_:
+        dup_ = sorted({n_ for n_ in names_ if names_.count(n_) > 1})
+        tag_ = "+".join(f"a{k_[1]}" for k_ in seq_)
+        U.decide(raised_ is None and not dup_, fkey(ca_, f"names:{tag_}"), where(ca_), f"members {names_}",
+                 f"members of alignment {tag_}: " + (f"check_alignment raises {raised_}" if raised_ else f"two members are both called {dup_} (all members: {names_})"))
+
     X = chk.rule("C04-X", "a back end tells core definitions from user definitions by a path component, never by a substring of the path text", 1,
                  "a user file whose path merely contains the text is silently missing from one language output")
 
